@@ -78,6 +78,8 @@ int main(int argc, char **argv)
   c14::register_vec();
   c14::register_dim();
   c14::register_shapes();
+  c14::register_scalar();
+  c14::register_access();
   c14::register_narrow();
   c14::register_narrow_mixed_a();
   c14::register_narrow_mixed_b();
